@@ -250,6 +250,8 @@ def gen_iter_plan(rng, mode="C08"):
             npts = rng.randint(9, 16)
             step = rng.choice([src["step_s"], 2 * src["step_s"], 45])
         pool.append({"kind": "ephem", "src": src, "start_off": rng.choice([0, 0, int(rng.uniform(-0.5, 1.0) * rev)]) if src["kind"] != "keplernum" else 0, "dur_s": step * (npts - 1), "step_s": step})
+        if rng.random() < 0.2:
+            pool[-1]["interp"] = "linear"  # a linearly interpolated ephemeris (2-point windows: first / last interval logic of its own)
     listeners = []
     if rng.random() < (0.45 if mode == "C08" else 1.0):
         listeners = [dict(rng.choice(SIMPLE_LISTENERS)) for _ in range(rng.randint(1, 3))]
